@@ -275,7 +275,7 @@ class Expander:
                     q = self.repo.resolve_in_module(func.module, dn)
                     if q is not None:
                         return ("global", q)
-            return ("attr", X(e.value), e.attr)
+            return mk_attr(X(e.value), e.attr)
         if isinstance(e, ast.Call):
             fn = X(e.func)
             args = []
@@ -378,6 +378,46 @@ class Expander:
             self._active.discard(key)
         self._memo[key] = t
         return t
+
+
+_CONTENT_MUTATORS = {
+    "append", "extend", "insert", "fill", "sort", "update", "setdefault", "setflags",
+    "pop", "remove", "clear", "add", "resize", "put", "itemset", "discard", "reverse",
+    "popitem", "out=", "del",
+}
+
+
+def mk_attr(base: Term, name: str) -> Term:
+    """``base.name`` with flow-sensitive resolution of attribute stores made
+    earlier in the same function (``self.x = v`` ... ``self.x``)."""
+    cur = base
+    while True:
+        k = cur[0]
+        if k == "setattr":
+            if cur[2] == ("root",):
+                if cur[3] == name:
+                    return cur[4]
+                cur = cur[1]
+                continue
+            cur = cur[1]  # store into a sub-object: attributes of the root unchanged
+            continue
+        if k == "update":
+            cur = cur[1]
+            continue
+        if k == "mut" and cur[2] in _CONTENT_MUTATORS:
+            cur = cur[1]
+            continue
+        if k == "phi":
+            return phi(mk_attr(a, name) for a in cur[1])
+        break
+    return ("attr", cur, name)
+
+
+def root_of(t: Term) -> Term:
+    """Strip attribute/subscript/store wrappers down to the root value."""
+    while t[0] in ("attr", "sub", "setattr", "update", "mut", "aug"):
+        t = t[1] if t[0] != "aug" else t[2]
+    return t
 
 
 def _has_tag(t: Term, tag: str) -> bool:
